@@ -30,7 +30,7 @@ CLAIMED = {
    text="Seeded search over histories with probe instants (format Debug / snapshot-zeroize-snapshot of the live object); in-run oracle (no secret word rendered, no 8 non-zero bytes survive) plus self-composition (byte-identical text, no 8-byte window of memory differing between the two secret assignments).",
    note="Relies on padding < 8 bytes in these types and on reading object memory through raw pointers in a release build.", ref="DESIGN.md §3 C17"),
  "C18": dict(level="exploration", tech="deterministic simulation: 2-6 simulated caller tasks on disjoint instances, each at its own forced SIMD level, interleaved by a seeded baton scheduler at every kernel dispatch/detect/reader call; Solo oracle (each task re-run alone); one process per search shard; shrinking and exact replay",
-   text="Seeded search over interleavings of complete operation sequences on disjoint Hasher/OutputReader instances and one-shot calls; every operation must return the bytes it returns when its task runs alone. The Rust detection cache cannot be put under the scheduler; the first-use family (fresh process, tasks on real threads released together) and, in thorough, the Miri tier (seeded scheduler, preemption at any basic block) look below the dispatch granularity.",
+   text="Seeded search over interleavings of complete operation sequences on disjoint Hasher/OutputReader instances and one-shot calls; every operation must return the bytes it returns when its task runs alone. The Rust detection cache cannot be put under the scheduler; the first-use family (fresh process, tasks on real threads released together) and the Miri tier (seeded scheduler, preemption at any basic block; a 40-interleaving batch in quick, ~220 in thorough, including clones of one reader/hasher handed to several threads) look below the dispatch granularity. Shared-file family: independent hashers on several tasks hash the same path (update_mmap_rayon on a one-thread pool adopted by the calling task).",
    note="Interleaving granularity is the hook sites; C instances join in the C06/C18-C families.", ref="DESIGN.md §3 C18"),
  "C06": dict(level="exploration", tech="deterministic simulation: the C library as a node driven through blake3_hasher_* by seeded histories (update fragmentation, finalize/finalize_seek/reset/struct-copy interleavings, per-run CPU feature mask, scripted TBB join seam); SpecModel and the Rust crate as twin oracles; shrinking and exact replay",
    text="Seeded search over C API histories on both kernel flavours (assembly and C intrinsics, compiled from the working tree) under random subsets of the detected feature mask; every output is compared with SpecModel and with the Rust crate on the same history; finalize must leave the hasher fields unchanged, reset must restore the initial fields, the two derive-key initialisers must agree, zero-length calls are no-ops, canaries guard every output buffer.",
